@@ -77,6 +77,33 @@ impl Narrowing {
         }
     }
 
+    /// Record that a check of the condition can never succeed. The condition as a whole then
+    /// never succeeds either, so it takes nothing away from what later branches may see: the
+    /// narrowed type becomes never, and stays never whatever the condition's other checks on the
+    /// same provenance record (they intersect with it).
+    pub fn unsatisfiable(
+        &mut self,
+        provenance: &Provenance,
+        original_id: usize,
+        program: &mut Program,
+    ) {
+        let never_id = program.never();
+        match self {
+            Narrowing::Active {
+                narrowed_type_id, ..
+            } => *narrowed_type_id = never_id,
+            Narrowing::Empty if !matches!(provenance, Provenance::Unknown) => {
+                *self = Narrowing::Active {
+                    provenance: provenance.clone(),
+                    original_type_id: original_id,
+                    narrowed_type_id: never_id,
+                };
+            }
+            Narrowing::Empty => *self = Narrowing::Disabled,
+            Narrowing::Disabled => {}
+        }
+    }
+
     /// Mark that complement narrowing is disabled (non-type failable term encountered).
     pub fn disable(&mut self) {
         *self = Narrowing::Disabled;
